@@ -1,7 +1,7 @@
 (* C02/Lemmas.v — remaining lemmas: priority order of the registry, satisfiability examples. *)
 From Common Require Import Prelude.
 From Coq Require Import Sorting.Sorted.
-From C02 Require Import Model LemSync LemQueue.
+From C02 Require Import Model LemSync LemQueue LemOnce.
 Open Scope Z_scope.
 
 Definition prio_ge (a b : handler) : Prop := h_prio a >= h_prio b.
@@ -213,3 +213,46 @@ Lemma ex_args :
   existsb (obs_eqb (LInvoke 0 2 2)) (log s) = true /\
   last_binding 1 [(1, 7)] (kw_get 1 [(1, 4)]) = Some 7.
 Proof. vm_compute. repeat split. Qed.
+
+(* the dispatcher re-checks the lock after every wake-up (fixes/C02-dispatcher-rechecks-wait.patch): woken although its
+   queue is locked (a queue object shared by several dispatches was locked again before the task ran), it invokes no
+   handler, calls no callback and sleeps again on a new Event of the same queue, with the same handlers remaining *)
+Lemma queue_dispatcher_rechecks_lock_l lost s i d q :
+  nth_error (disps s) i = Some d -> d_st d = DReady q -> waiter_of q s = true ->
+  log (disp_step lost i s) = log s /\ outst (disp_step lost i s) = outst s /\
+  exists d', nth_error (disps (disp_step lost i s)) i = Some d' /\ d_st d' = DSleep q (nev s) /\ d_rem d' = d_rem d /\
+             d_psn d' = d_psn d /\ waiter_of q (disp_step lost i s) = true.
+Proof.
+  intros Hd St W. unfold disp_step. rewrite Hd, St, W. sst. repeat split; auto.
+  exists (set_st d (DSleep q (nev s))). unfold set_disp. sst.
+  assert (Hi : (i < length (disps s))%nat) by (apply nth_error_Some; congruence).
+  rewrite nth_set_eq by exact Hi. destruct d; cbn. repeat split; auto.
+  unfold waiter_of in *. sst. destruct (nth_error (heap s) q) as [o|] eqn:Hq; [|discriminate].
+  rewrite nth_set_eq by (apply nth_error_Some; congruence). exact W.
+Qed.
+
+(* one coroutine handler registered with a queue object of its own (shared by all dispatches of event 1); the event is
+   posted, the coroutine's future is resolved and the event is posted again in the same loop slice: the second dispatch
+   locks queue 0 again before the first dispatcher wakes up *)
+Definition ex_regs3 : list (Z * handler) := [(1, mkH 2 10 [] (Some 0%nat) None (HAsync true))].
+Definition ex_env3 : list (list action) := [[APostQ 1 false []]; [AClearNth 0; APostQ 1 false []]].
+
+Lemma ex_recheck :
+  let s := env_run false default_fuel ex_env3 (init_state ex_regs3) in
+  err s = false /\ existsb (obs_eqb (LCallback 0)) (log s) = false /\ length (filter not_done (disps s)) = 2%nat /\
+  outst s = [OFut 0%nat] /\ waiter_of 0 s = true /\
+  (let s' := env_run false default_fuel [[AClearNth 0]] s in
+   existsb (obs_eqb (LCallback 0)) (log s') = true /\ outst s' = []).
+Proof. vm_compute. repeat split; reflexivity. Qed.
+
+Lemma ex_once :
+  let s := env_run false default_fuel ex_env2 (init_state ex_regs) in
+  reachable false s /\ idle false s /\ outst s = [] /\
+  nqposts 0 (log s) = 1%nat /\ ncallbacks 0 (log s) = 1%nat /\ nqposts 1 (log s) = 1%nat /\ ncallbacks 1 (log s) = 1%nat /\
+  (let s1 := env_run false default_fuel ex_env1 (init_state ex_regs) in
+   nqposts 0 (log s1) = 1%nat /\ ncallbacks 0 (log s1) = 0%nat /\ outst s1 <> []).
+Proof.
+  split.
+  - apply env_run_reachable; [apply r_init|]; apply ex_fresh.
+  - vm_compute. repeat split. discriminate.
+Qed.
